@@ -58,6 +58,10 @@ class Gen:
     def word(self):
         return self.r.choice(WORDS)
 
+    def bullet(self):
+        """prose that starts like a choice line but is not one (only ever used indented: inside blocks)"""
+        return self.r.choice(["*sigh* ", "* * * ", "+1 gold ", "+ one more thing ", "*"])
+
     def prose(self):
         """a word for running text / choice text: sometimes with an apostrophe or a quote in it"""
         if self.r.random() < 0.12:
@@ -314,7 +318,10 @@ class Gen:
         for _ in range(r.randint(1, 3)):
             k = r.random()
             if k < 0.4:
-                items.append(self.line(ints))
+                ln = self.line(ints)
+                if r.random() < 0.1:
+                    ln["parts"] = [("t", self.bullet())] + ln["parts"]      # looks like a choice line, is prose
+                items.append(ln)
             elif k < 0.6:
                 items.append({"k": "stmt", "code": self.stmt(ints), "comment": None})
             elif k < 0.68 and self.p("render"):
@@ -346,9 +353,13 @@ class Gen:
     def if_block(self, cur_idx, depth, ints):
         r = self.r
         self.count("if")
-        branches = [(self.bool_expr(0, ints) if not self.p("faults") else "nope > 0", self.block_items(cur_idx, depth, ints))]
+        COLON = ["xs[1:]", "len(xs[0:2]) > 0", "{'a': 1}['a'] == 1", "ys[:1] == ys[0:1]"]
+        # (a colon inside a condition: real-compiler-only families — slices and dict displays are outside MiniPy)
+        c0 = r.choice(COLON) if self.p("colon_conds") and r.random() < 0.4 else (self.bool_expr(0, ints) if not self.p("faults") else "nope > 0")
+        branches = [(c0, self.block_items(cur_idx, depth, ints))]
         if r.random() < 0.4:
-            branches.append((self.bool_expr(0, ints), self.block_items(cur_idx, depth, ints)))
+            c1 = r.choice(COLON) if self.p("colon_conds") and r.random() < 0.4 else self.bool_expr(0, ints)
+            branches.append((c1, self.block_items(cur_idx, depth, ints)))
         if r.random() < 0.5:
             branches.append((None, self.block_items(cur_idx, depth, ints)))
         return {"k": "if", "branches": branches}
@@ -357,7 +368,9 @@ class Gen:
         r = self.r
         self.count("for")
         k = r.random()
-        if k < 0.5:
+        if self.p("colon_conds") and r.random() < 0.3:
+            var, coll, inner = "it", r.choice(["xs[0:2]", "ys[:1]", "{'a': 1, 'b': 2}"]), ints
+        elif k < 0.5:
             var, coll, inner = "it", r.choice(["ys", "list(xs)", "range(2)", "[1, 2]", "sorted(xs)"]), (ints or INT_VARS) + ["it"]
         elif k < 0.65:
             var, coll, inner = "w", "list(ws)", ints
@@ -494,7 +507,10 @@ class Gen:
         for _ in range(r.randint(0, 3)):
             k = r.random()
             if k < 0.5:
-                items.append(self.line(ints))
+                ln = self.line(ints)
+                if r.random() < 0.15:
+                    ln["parts"] = [("t", self.bullet())] + ln["parts"]
+                items.append(ln)
             elif k < 0.8:
                 items.append({"k": "stmt", "code": self.stmt(ints), "comment": None})
             elif self.hook_names:
@@ -588,6 +604,11 @@ def _cmt(style, kind, item=None):
     # default style: the comments the generator attached to the AST
     if item is not None and item.get("comment") and style.get("comments", True):
         return " // " + item["comment"]
+    # ... plus comments on the kinds of directive line named in style["also"] (compile ties of the engine properties)
+    if kind in style.get("also", ()):
+        r = style.get("rng")
+        if r is None or r.random() < 0.6:
+            return " // " + (r.choice(COMMENTS[:8]) if r else "note")
     return ""
 
 
